@@ -85,6 +85,12 @@ def _obj(spec):
         return np.array(vals, dtype=np.uint8)
     if form == "ndarray_dt":
         return np.array(vals, dtype=getattr(np, spec["dtype"]))
+    if form == "zerod_dt":
+        return np.array(vals, dtype=getattr(np, spec["dtype"]))            # vals is one number: a 0-d array
+    if form == "list_npscalars":
+        return [getattr(np, spec["dtype"])(v) for v in vals]
+    if form == "bs_dt":
+        return binary_sequence(np.array(vals, dtype=getattr(np, spec["dtype"])))
     if form == "list_bool":
         return [bool(v) for v in vals]
     if form == "list_float":
@@ -175,7 +181,7 @@ def _wire_data(spec):
 def _wire_operand(spec):
     import numpy as np
     form = spec["form"]
-    if form == "bs":
+    if form in ("bs", "bs_dt"):
         return "bs " + " ".join([str(len(spec["vals"]))] + [str(v) for v in spec["vals"]])
     if form in ("str", "str_sep", "text"):
         return _wire_data(spec)
@@ -311,6 +317,23 @@ OVERFLOW_TEXTS = ["9223372036854775808", "-9223372036854775809", "99999999999999
 
 # every kind of white space Python's `\\s` knows, around and inside bit patterns: only the blank (and the comma) separate bits;
 # any other white-space character left in a 0/1 pattern is refused by HEAD (numpy cannot read it as a number)
+ALL_DTYPES = ["bool_", "int8", "int16", "int32", "int64", "uint8", "uint16", "uint32", "uint64",
+              "float16", "float32", "float64", "complex64", "complex128", "object_"]
+
+
+def _dtype_specs(rng, bits):
+    """the same valid bits as data of every numpy dtype, in every container kind"""
+    out = []
+    for dt in ALL_DTYPES:
+        v = [int(c) for c in bits]
+        out.append({"form": "ndarray_dt", "dtype": dt, "vals": v, "bits": bits})
+        out.append({"form": "zerod_dt", "dtype": dt, "vals": v[0], "bits": bits[0]})
+        if dt != "object_":
+            out.append({"form": "npscalar", "np": dt, "vals": v[0], "bits": bits[0]})
+            out.append({"form": "list_npscalars", "dtype": dt, "vals": v, "bits": bits})
+    return out
+
+
 WS_CHARS = ["\t", "\n", "\r\n", "\r", "\f", "\v", "\xa0", "\x1c", "\x85", "\u2003", "\u2028", "\u3000"]
 
 
@@ -441,6 +464,29 @@ def gen_cases(rng, tier):
         for op in (("add",) if spec["form"].startswith("ndarray") else ("add", "radd")):
             cases.append({"kind": "prog", "init": _rand_bits(rng, rng.randrange(0, 7)),
                           "steps": [{"op": op, "operand": spec, "obits": None, "expect": "err", "keep": False}]})
+    # every numpy dtype in every container kind: constructor, then every operator result (stored dtype must be uint8)
+    for _ in range(1 if quick else 10):
+        for spec in _dtype_specs(rng, _rand_bits(rng, rng.randrange(1, 9))):
+            cases.append({"kind": "mk", "data": spec, "expect": "ok"})
+    for _ in range(1 if quick else 10):
+        for dt in ALL_DTYPES:
+            init = _rand_bits(rng, rng.randrange(1, 9))
+            ob = _rand_bits(rng, rng.randrange(1, 6))
+            ov = [int(c) for c in ob]
+            steps = [{"op": "get", "index": {"t": "slice", "a": rng.choice([None, 0, 1]), "b": None, "c": rng.choice([None, 1, -1, 2])}, "keep": False},
+                     {"op": "get", "index": {"t": "int", "i": rng.choice([0, -1])}, "keep": False},
+                     {"op": "inv", "keep": False},
+                     {"op": "add", "operand": {"form": "bs_dt", "dtype": dt, "vals": ov, "bits": ob}, "obits": ob, "expect": "ok", "keep": False},
+                     {"op": "add", "operand": {"form": "ndarray_dt", "dtype": dt, "vals": ov, "bits": ob}, "obits": ob, "expect": "ok", "keep": False}]
+            if dt != "object_":
+                steps.append({"op": "add", "operand": {"form": "list_npscalars", "dtype": dt, "vals": ov, "bits": ob}, "obits": ob,
+                              "expect": "ok", "keep": False})
+                steps.append({"op": "radd", "operand": {"form": "list_npscalars", "dtype": dt, "vals": ov, "bits": ob}, "obits": ob,
+                              "expect": "ok", "keep": True})
+            steps.append({"op": "radd", "operand": {"form": "bs_dt", "dtype": dt, "vals": ov, "bits": ob}, "obits": ob, "expect": "ok", "keep": True})
+            steps.append({"op": "get", "index": {"t": "slice", "a": 1, "b": None, "c": None}, "keep": True})
+            steps.append({"op": "inv", "keep": True})
+            cases.append({"kind": "prog", "init": init, "init_dtype": dt, "steps": steps})
     for t in _ws_texts(rng, 2 if quick else 20):
         cases.append({"kind": "mk", "data": {"form": "text", "text": t}, "expect": "any"})
     for t in _ws_texts(rng, 1 if quick else 10):
@@ -635,6 +681,39 @@ def gen_cases(rng, tier):
         for op in ("gt", "lt"):
             for form in ("scalar", "list1"):
                 cases.append({"kind": "cmpf", "op": op, "sig": sig, "noise": None, "thr": {"form": form, "vals": tv}})
+    # float32 / float16 signals against float64 thresholds placed BETWEEN adjacent representable values of the signal's
+    # precision (Python float, np.float64, one-element list / array / electrical_signal, full float64 array): the comparison
+    # must be made on the stored sample and the threshold as they are, not after rounding the threshold to the signal's dtype
+    import struct
+
+    def nxt(v, code, up):
+        fmt, ifmt = ("<f", "<I") if code == "float32" else ("<e", "<H")
+        b = struct.unpack(ifmt, struct.pack(fmt, v))[0]
+        return struct.unpack(fmt, struct.pack(ifmt, b + (1 if up else -1)))[0]       # v > 0: neighbouring representable value
+
+    def rnd(v, code):
+        return struct.unpack("<f" if code == "float32" else "<e", struct.pack("<f" if code == "float32" else "<e", v))[0]
+
+    for code in ("float32", "float16"):
+        for _ in range(40 if quick else 800):
+            n = rng.choice([1, 2, 3, 5])
+            sig = [rnd(rng.choice([0.1, 0.2, 0.3, 0.7, 1.1, 2.5, 3.3, 0.001, 100.1, rng.uniform(0.01, 50.0)]), code) for _ in range(n)]
+            form = rng.choice(["scalar", "npscalar", "list1", "ndarray1", "esig1", "ndarray", "list"])
+            m = n if form in ("ndarray", "list") else 1
+            tv = []
+            for i in range(m):
+                s0 = sig[i if m > 1 else rng.randrange(n)]
+                lo, hi = nxt(s0, code, False), nxt(s0, code, True)
+                tv.append(rng.choice([s0, (s0 + hi) / 2, (s0 + lo) / 2, s0 + (hi - s0) / 4, s0 - (s0 - lo) / 4, hi, lo,
+                                      float(repr(s0)[:5]) if float(repr(s0)[:5]) > 0 else s0]))
+            for op in ("gt", "lt"):
+                cases.append({"kind": "cmpf", "op": op, "sig": sig, "noise": None, "fdtype": code, "thr": {"form": form, "vals": tv}})
+    for code, vals in (("float32", [0.1, 0.3, 0.7]), ("float16", [0.1, 0.3, 0.7])):
+        for form in ("scalar", "npscalar", "list1", "ndarray1"):
+            for t0 in (0.1, 0.3, 0.7):
+                for op in ("gt", "lt"):
+                    cases.append({"kind": "cmpf", "op": op, "sig": [rnd(x, code) for x in vals], "noise": None, "fdtype": code,
+                                  "thr": {"form": form, "vals": [t0]}})
     # large int64 samples (2^53 ... 2^62) against INTEGER thresholds one unit apart: a cast to float would tie them.
     # (int64 samples against a FLOAT threshold are compared by numpy after a cast to float64: reported, not generated)
     for _ in range(40 if quick else 800):
@@ -735,11 +814,14 @@ def _run_mk(case):
 def _run_prog(case):
     import numpy as np
     from opticomlib.typing import binary_sequence
-    cur = binary_sequence([int(c) for c in case["init"]])
+    if case.get("init_dtype"):
+        cur = binary_sequence(np.array([int(c) for c in case["init"]], dtype=getattr(np, case["init_dtype"])))
+    else:
+        cur = binary_sequence([int(c) for c in case["init"]])
     out = []
     for st in case["steps"]:
         prev = "".join(str(int(x)) for x in cur.data)
-        rec = {"prev": prev}
+        rec = {"prev": prev, "prev_dtype": str(cur.data.dtype)}
         snap = cur.data.tobytes()
         op = st["op"]
         operand = None
@@ -750,6 +832,8 @@ def _run_prog(case):
                     warnings.simplefilter("ignore")
                     if op in ("add", "radd"):
                         operand = _obj(st["operand"])
+                        if isinstance(operand, binary_sequence):
+                            rec["operand_dtype"] = str(operand.data.dtype)
                         osnap = (operand.data.tobytes() if isinstance(operand, binary_sequence) else
                                  operand.tobytes() if isinstance(operand, np.ndarray) else repr(operand))
                         r = (cur + operand) if op == "add" else (operand + cur)
@@ -897,8 +981,13 @@ def _run_cmpf(case):
     from opticomlib.typing import electrical_signal
     i64 = case.get("int64", False)
     mk = (lambda v: np.array(v, dtype=np.int64)) if i64 else (lambda v: np.array(v, dtype=float))
-    sig = mk(case["sig"])
-    noi = None if case["noise"] is None else mk(case["noise"])
+    if case.get("fdtype"):
+        mks = lambda v: np.array(v, dtype=getattr(np, case["fdtype"]))      # noqa: E731  (values are representable: no rounding)
+        assert [float(x) for x in mks(case["sig"])] == [float(x) for x in case["sig"]], "generator: sample not representable"
+    else:
+        mks = mk
+    sig = mks(case["sig"])
+    noi = None if case["noise"] is None else mks(case["noise"])
     x = electrical_signal(sig) if noi is None else electrical_signal(sig, noi)
     names = SIGNATURES["electrical_signal"]
     xk = electrical_signal(**({names[0]: sig} if noi is None else {names[0]: sig, names[1]: noi}))
@@ -906,7 +995,8 @@ def _run_cmpf(case):
         ((x.noise is None) == (xk.noise is None)) and (x.noise is None or x.noise.tobytes() == xk.noise.tobytes())
     tv, form = case["thr"]["vals"], case["thr"]["form"]
     t = {"scalar": lambda: tv[0], "npscalar": lambda: (np.int64 if i64 else np.float64)(tv[0]), "list1": lambda: [tv[0]],
-         "list": lambda: list(tv), "tuple": lambda: tuple(tv), "ndarray": lambda: mk(tv), "esig": lambda: electrical_signal(mk(tv))}[form]()
+         "list": lambda: list(tv), "tuple": lambda: tuple(tv), "ndarray": lambda: mk(tv), "esig": lambda: electrical_signal(mk(tv)),
+         "ndarray1": lambda: mk([tv[0]]), "esig1": lambda: electrical_signal(mk([tv[0]]))}[form]()
     s0 = x.signal.tobytes()
     try:
         with time_limit(20):
@@ -1083,7 +1173,7 @@ def oracle(case, res):
         sig, noi, thr, _den = _exact(case)
         n = len(sig)
         what = f"electrical_signal({case['sig'][:6]}{'' if noi is None else ', noise=' + str(case['noise'][:6])}" \
-               f"{' int64' if case.get('int64') else ''}) {'>' if case['op'] == 'gt' else '<'} {case['thr']['form']} {case['thr']['vals'][:6]}"
+               f"{' int64' if case.get('int64') else ''}{' ' + case['fdtype'] if case.get('fdtype') else ''}) {'>' if case['op'] == 'gt' else '<'} {case['thr']['form']} {case['thr']['vals'][:6]}"
         if not res.get("self_unchanged", True):
             v.append(("C15:cmp-mutates", f"{what}: the signal object changed"))
         if res.get("kw_same") is False:
@@ -1135,6 +1225,11 @@ def oracle(case, res):
             op, prev = st["op"], rec["prev"]
             where = {"add": "a+b", "radd": "b+a", "inv": "~a", "get": "a[i]"}[op]
             tag = f"step {k} {where} on a={prev[:40]!r}"
+            if rec.get("prev_dtype", "uint8") != "uint8":
+                v.append(("C15:closure:stored-dtype", f"{tag}: the sequence operated on stores its data as {rec['prev_dtype']}, uint8 required "
+                                                      f"(built from {case.get('init_dtype', 'a list')} data)"))
+            if rec.get("operand_dtype", "uint8") != "uint8":
+                v.append(("C15:closure:stored-dtype", f"{tag}: the binary_sequence operand stores its data as {rec['operand_dtype']}, uint8 required"))
             if not rec.get("self_unchanged", True):
                 v.append((f"C15:mutates-self:{op}", f"{tag}: the left operand's data changed"))
             if rec.get("operand_unchanged") is False:
@@ -1272,6 +1367,8 @@ def features(case, res):
         import math
         f.append("cmpf:thr=" + case["thr"]["form"])
         mags = [abs(v) for v in case["sig"] if v]
+        if case.get("fdtype"):
+            f.append("cmpf:signal-dtype=" + case["fdtype"])
         if case.get("int64"):
             f.append("cmpf:int64>=2^53")
         elif mags:
